@@ -593,3 +593,31 @@ def flat_program(rnd: random.Random, nblocks=None, nroutines=None):
         body.append(("ctrl", rnd.choice(["return", "end", "hold"])))
         routines.append((("def", ri), body))
     return {"imports": [], "macros": [], "routines": routines}
+
+
+def is_flat(prog):
+    """membership in the C13 class"""
+    plain = ("op", "asg", "with", "msgswitch")
+    for hdr, body in prog["routines"]:
+        if not body or body[-1][0] != "ctrl" or body[-1][1] not in ("return", "end", "hold"):
+            return False
+        for s in body[:-1]:
+            if s[0] in plain:
+                if s[0] == "with" and s[3][0] not in ("op", "asg"):
+                    return False
+                continue
+            if s[0] == "if":
+                for _, conds, b in s[1]:
+                    if not conds or any(x[0] not in plain for x in b):
+                        return False
+                if s[2] is not None and any(x[0] not in plain for x in s[2]):
+                    return False
+            elif s[0] == "switch":
+                if not s[2] or not s[2][-1][1]:
+                    return False
+                for h, b in s[2]:
+                    if b and (b[-1] != ("ctrl", "break") or any(x[0] not in plain for x in b[:-1]) or len(b) < 2):
+                        return False
+            else:
+                return False
+    return not prog.get("macros")
